@@ -293,7 +293,39 @@ fn noise(rng: &mut ChaCha8Rng) -> String {
 
 fn nested(rng: &mut ChaCha8Rng) -> (String, &'static str) {
     let depth = rng.gen_range(2..=64);
-    match rng.gen_range(0..5) {
+    match rng.gen_range(0..9) {
+        5 => {
+            // scoped blocks nested inside the iterator position
+            let d = depth.min(40);
+            let mut it = "A".to_string();
+            for _ in 0..d {
+                it = format!("enumerate(sum(i in {it}) {{ 1 }})");
+            }
+            (format!("min x + sum(i in {it}) {{ 1 }}\ns.t.\n    x >= 0\nwhere\n    let A = [1]\ndefine\n    x as Real(0, 1)\n"), "nested-iterators")
+        }
+        6 => {
+            // single-element scoped blocks can be nested deeply without growing the model
+            let d = depth.min(48);
+            let mut body = "x".to_string();
+            for k in 0..d {
+                body = format!("sum(i{k} in 0..1) {{ {body} }}");
+            }
+            (format!("min {body}\ns.t.\n    x >= 0\ndefine\n    x as Real(0, 1)\n"), "nested-scoped-blocks(single-element)")
+        }
+        7 => {
+            // products of constant sums: linear, but exponential if distributed before folding
+            let n = depth.min(60);
+            let f = ["(1 + 1)", "(2 - 1)", "(0.5 + 0.5)", "(3 - 1 - 1)"];
+            let chain: String = (0..n).map(|_| format!(" * {}", f[rng.gen_range(0..f.len())])).collect();
+            (program_for(&format!("(a + 1){chain}")), "product-of-constant-sums")
+        }
+        8 => {
+            // products of sums with variables: not linear, must be rejected quickly
+            let n = depth.min(40);
+            let v = ["a", "b", "c", "d"];
+            let chain: String = (0..n).map(|_| format!(" * ({} + 1)", v[rng.gen_range(0..v.len())])).collect();
+            (program_for(&format!("(a + 1){chain}")), "product-of-variable-sums")
+        }
         0 => (program_for(&format!("{}a + 2(b){}", "(".repeat(depth), ")".repeat(depth))), "nested-parentheses"),
         1 => (program_for(&format!("{}a{}", "abs { ".repeat(depth), " }".repeat(depth))), "nested-blocks"),
         2 => (format!("min 1\ns.t.\n    1 >= 0\nwhere\n    let A = {}1{}\n", "[".repeat(depth), "]".repeat(depth)), "nested-arrays"),
@@ -339,7 +371,7 @@ fn known_bad(rng: &mut ChaCha8Rng) -> (String, &'static str) {
 }
 
 /// The structural precondition of the known resource findings: the input asks for an iteration
-/// over at least 5000 elements (an integer literal >= 5000 next to a range operator or inside one).
+/// over at least 5000 elements (an integer literal >= 5000 and a range operator or a range() call).
 pub fn large_iteration(input: &str) -> bool {
     let mut best: u128 = 0;
     let mut cur = String::new();
@@ -355,7 +387,7 @@ pub fn large_iteration(input: &str) -> bool {
             cur.clear();
         }
     }
-    best >= 5000 && input.contains("..")
+    best >= 5000 && (input.contains("..") || input.contains("range("))
 }
 
 /// The structural precondition of the known branch-and-bound finding: an integer variable whose
@@ -475,7 +507,7 @@ impl Driver for C18 {
         ))
     }
     fn rule(&self) -> String {
-        "inputs up to 4 KiB: valid programs (G-text, G-data, expression corpus), token-level mutations of them (delete / duplicate / swap a token, numeric extremes around the i32/i64/u64/u128/f64 limits, negation wraps, deep indexes, larger numbers, injected brackets / quotes / non-ASCII symbols, applied once or twice), byte noise and grammar-token noise, nesting up to 64 (parentheses, blocks, arrays, operator chains; scoped blocks up to 6 levels), and - in one unit out of 1000 - inputs from the known-bad region (aggregations and for-quantified constraints over 20,000 to 9,000,000 elements). Every input goes, in a sacrificial worker with a 10 s CPU budget and a 2 GiB address-space limit, through parse, format (+ re-parse), type_check, transform, model rendering, linearize, linear rendering, LP export, into_standard_form, into_tableau, tableau solve, auto_solver and the rendering of every error (to_string_from_source, trace_from_source, traced_error, Display), each stage under catch_unwind with a panic hook that records message and location. non-trivial = distinct input that passed all reachable stages".into()
+        "inputs up to 4 KiB: valid programs (G-text, G-data, expression corpus), token-level mutations of them (delete / duplicate / swap a token, numeric extremes around the i32/i64/u64/u128/f64 limits, negation wraps, deep indexes, larger numbers, injected brackets / quotes / non-ASCII symbols, applied once or twice), byte noise and grammar-token noise, nesting up to 64 (parentheses, blocks, arrays, operator chains; two-element scoped blocks up to 6 levels, single-element ones up to 48, scoped blocks inside the iterator position up to 40; products of up to 60 constant sums and of up to 40 sums with variables), and - in one unit out of 1000 - inputs from the known-bad region (aggregations and for-quantified constraints over 20,000 to 9,000,000 elements). Every input goes, in a sacrificial worker with a 10 s CPU budget and a 2 GiB address-space limit, through parse, format (+ re-parse), type_check, transform, model rendering, linearize, linear rendering, LP export, into_standard_form, into_tableau, tableau solve, auto_solver and the rendering of every error (to_string_from_source, trace_from_source, traced_error, Display), each stage under catch_unwind with a panic hook that records message and location. non-trivial = distinct input that passed all reachable stages".into()
     }
     fn thresholds(&self, tier: Tier) -> Thresholds {
         let s = tier.pick(10, 120);
